@@ -45,7 +45,9 @@ size_t strlen(const char *s)
 	/* ... nor at offset 255 (libjwt's error buffers are 256 bytes and keep a NUL
 	 * in their last byte: strlen of such a buffer is at most 255) */
 	__CPROVER_assume(n <= 255 || s[255] != 0);
+#ifdef VERIF_STRLEN_RECORD
 	g_last_strlen = n;
+#endif
 	return n;
 }
 
